@@ -53,11 +53,32 @@ theorem offset_eq_dev_sub (l : Line) (v x md : Nat)
   rw [e1, BitVec.toNat_sub, BitVec.toNat_ofNat, Nat.mod_eq_of_lt hmd]
   omega
 
+theorem devStep_eq (s : Nat × Nat) (d : Nat) : Gen.linearDevStep s d = (Nat.min s.1 d, Nat.max s.2 d) := by
+  unfold Gen.linearDevStep; rfl
+
+theorem devBounds_eq (devs : List Nat) :
+    devBounds devs = (devs.foldl Nat.min (U64 - 1), devs.foldl Nat.max 0) := by
+  unfold devBounds
+  generalize (U64 - 1) = a
+  generalize (0 : Nat) = b
+  induction devs generalizing a b with
+  | nil => rfl
+  | cons d ds ih => simp only [List.foldl_cons, devStep_eq]; exact ih _ _
+
+/-- the estimator's invariant: after the pass, `min_deviation ≤ deviationᵢ ≤ max_deviation` for every
+row — this is what makes every residual `deviationᵢ − min_deviation` fit `num_bits` -/
+theorem devBounds_spec (devs : List Nat) : ∀ d ∈ devs, (devBounds devs).1 ≤ d ∧ d ≤ (devBounds devs).2 := by
+  rw [devBounds_eq]
+  intro d hd
+  exact ⟨(foldl_min_le devs _).2 d hd, (foldl_max_ge devs _).2 d hd⟩
+
 theorem linear_exact (l : Line) (vals : List Nat) (hv : ∀ v ∈ vals, v < 2 ^ 64) (i : Nat) (hi : i < vals.length) :
     linearGet (linearEncWith l vals).1 (linearEncWith l vals).2.1 (linearEncWith l vals).2.2 i = vals[i] := by
   unfold linearEncWith
   simp only
   generalize hdevs : linearDeviations l vals = devs
+  rw [devBounds_eq]
+  simp only
   generalize hmd : devs.foldl Nat.min (U64 - 1) = md
   generalize hMd : devs.foldl Nat.max 0 = Md
   have hlen : devs.length = vals.length := by rw [← hdevs]; exact linearDeviations_length l vals
